@@ -1,0 +1,67 @@
+//go:build verif
+// +build verif
+
+package immunitycache
+
+// Read-only accessors used by the runtime monitors in /verif (build tag "verif" only).
+// Nothing in this file changes the behaviour of the cache.
+
+// VerifItem describes one cached item
+type VerifItem struct {
+	Key    string
+	Size   int
+	Immune bool
+}
+
+// VerifChunkStat is the content of one chunk, read under the chunk mutex
+type VerifChunkStat struct {
+	NumItems       int
+	NumBytes       int // the chunk's own byte counter
+	NumImmuneItems int // items whose immunity flag is set
+	NumImmuneBytes int
+	NumImmuneKeys  int // keys held for present or future immunity
+
+	// per-chunk limits actually in force
+	MaxNumItems                 uint32
+	MaxNumBytes                 uint32
+	NumItemsToPreemptivelyEvict uint32
+
+	Items []VerifItem // oldest first
+}
+
+// VerifChunkStats returns the statistics and limits of every chunk
+func (ic *ImmunityCache) VerifChunkStats() []VerifChunkStat {
+	chunks := ic.getChunksWithLock()
+	out := make([]VerifChunkStat, 0, len(chunks))
+
+	for _, chunk := range chunks {
+		chunk.mutex.RLock()
+		stat := VerifChunkStat{
+			NumItems:                    len(chunk.items),
+			NumBytes:                    chunk.numBytes,
+			NumImmuneKeys:               len(chunk.immuneKeys),
+			MaxNumItems:                 chunk.config.maxNumItems,
+			MaxNumBytes:                 chunk.config.maxNumBytes,
+			NumItemsToPreemptivelyEvict: chunk.config.numItemsToPreemptivelyEvict,
+		}
+		for element := chunk.itemsAsList.Front(); element != nil; element = element.Next() {
+			item := element.Value.(*cacheItem)
+			immune := item.isImmuneToEviction()
+			if immune {
+				stat.NumImmuneItems++
+				stat.NumImmuneBytes += item.size
+			}
+			stat.Items = append(stat.Items, VerifItem{Key: item.key, Size: item.size, Immune: immune})
+		}
+		chunk.mutex.RUnlock()
+
+		out = append(out, stat)
+	}
+
+	return out
+}
+
+// VerifChunkIndex returns the index of the chunk that holds (or would hold) the key
+func (ic *ImmunityCache) VerifChunkIndex(key []byte) int {
+	return int(ic.getChunkIndexByKey(string(key)))
+}
